@@ -224,6 +224,18 @@ Definition remove_unused_volumes (vols : vtable) : vtable :=
   filter (fun p => negb (v_fictive (snd p) && negb (existsb (fun x => match x with Some k => (k =? fst p)%Z | None => false end) used)))
          vols.
 
+(* ---- construct_volume_t4: the two helper planes for unions ------------------------ *)
+(* free_surf_id = max(int(k) for k in t4_surf_numbering) + 1
+   union_ids = free_surf_id + 1, free_surf_id + 2
+   t4_surf_numbering[union_ids[0]] = PLANEX 1; t4_surf_numbering[union_ids[1]] = PLANEX -1 *)
+Definition insert_helpers (surfs : stable) (h0 h1 : surface) : res (stable * Z * Z) :=
+  match keys surfs with
+  | [] => Err EValue                        (* max() of an empty dict *)
+  | k :: r =>
+      let free := (fold_right Z.max k r + 1)%Z in
+      Ok (surfs ++ [((free + 1)%Z, h0); ((free + 2)%Z, h1)], (free + 1)%Z, (free + 2)%Z)
+  end.
+
 (* ---- tail of convertMCNPGeometry -------------------------------------------- *)
 (* the helper planes are renumbered together with the other surfaces (fix a12128b):
    union_ids = tuple(renumber[surf] for surf in union_ids) *)
